@@ -15,9 +15,13 @@ require (
 
 require (
 	github.com/IrineSistiana/bytespool v0.0.0-20240303022030-cfcf97e7141f // indirect
+	github.com/IrineSistiana/connpool v0.0.0-20240326131245-897b52e59cfc // indirect
 	github.com/IrineSistiana/gopool v0.0.0-20240118084800-c21759e56cf2 // indirect
 	github.com/andybalholm/brotli v1.1.0 // indirect
+	github.com/mattn/go-colorable v0.1.13 // indirect
+	github.com/mattn/go-isatty v0.0.20 // indirect
 	github.com/quic-go/qpack v0.4.0 // indirect
+	github.com/rs/zerolog v1.32.0 // indirect
 	github.com/valyala/bytebufferpool v1.0.0 // indirect
 	golang.org/x/crypto v0.21.0 // indirect
 	golang.org/x/exp v0.0.0-20240325151524-a685a6edb6d8 // indirect
